@@ -5,13 +5,18 @@
 // happened.  Everything in this file is independent of /repo: the xerial framer
 // is written here from the format description (16-byte magic header once, then
 // [4-byte big-endian length][raw snappy block]*), and the format libraries are
-// used directly as reference encoders / decoders.
+// used directly as reference encoders / decoders.  Snappy BLOCKS are decoded by
+// the strict hand-written decoder of snappystrict.go (the klauspost block API is
+// s2.Decode, the decoder family of the code under test, which also accepts S2-only
+// elements); klauspost/compress/snappy is only the reference ENCODER of the streams
+// fed to the library's reader (and its blocks pass through the strict decoder too).
 package cdriver
 
 import (
 	"bytes"
 	stdgzip "compress/gzip"
 	"encoding/binary"
+	"fmt"
 	"io"
 	"math/rand"
 
@@ -25,11 +30,44 @@ var xerialMagic = []byte{0x82, 'S', 'N', 'A', 'P', 'P', 'Y', 0, 0, 0, 0, 1, 0, 0
 
 // Frame is one parsed xerial frame: the length prefix, the number of bytes of the
 // block that were really there, and the uncompressed length obtained by decoding
-// the block with the snappy block decoder (-1: the block does not decode).
+// the block with the strict snappy block decoder (-1: the block does not decode).
 type Frame struct {
 	Prefix int
 	CLen   int
 	DLen   int
+	Err    string // why the strict decoder rejected the block (names the offending element)
+	S2     bool   // diagnostic only, set for a rejected block: the lenient klauspost decoder (snappy + S2 extensions) accepts it
+}
+
+// Strict is what goes to the judge for every block: the strict decoder's verdict.
+func (f Frame) Strict() map[string]interface{} {
+	return map[string]interface{}{"ok": f.DLen >= 0 && f.Err == "", "n": f.DLen, "s2only": f.S2, "err": f.Err}
+}
+
+// FirstBad describes the first block the strict decoder rejected ("" when there is none).
+func (p *Parsed) FirstBad() string {
+	for i, f := range p.Frames {
+		if f.DLen < 0 {
+			why := f.Err
+			if why == "" {
+				why = "block truncated"
+			}
+			if f.S2 {
+				why += " [the klauspost snappy/S2 decoder accepts the block]"
+			}
+			return fmt.Sprintf("block %d (%d bytes): %s", i, f.CLen, why)
+		}
+	}
+	return ""
+}
+
+func decodeBlock(blk []byte, prefix int) (Frame, []byte) {
+	d, err := StrictSnappyDecode(blk)
+	if err != nil {
+		_, lerr := ksnappy.Decode(nil, blk)
+		return Frame{Prefix: prefix, CLen: len(blk), DLen: -1, Err: err.Error(), S2: lerr == nil}, nil
+	}
+	return Frame{Prefix: prefix, CLen: len(blk), DLen: len(d)}, d
 }
 
 // Parsed is the structure of a snappy codec output as seen by this framer.
@@ -58,19 +96,15 @@ func ParseSnappy(b []byte) *Parsed {
 			p.Items = append(p.Items, [2]int{off, off + 4})
 			off += 4
 			if n > len(b)-off {
-				p.Frames = append(p.Frames, Frame{Prefix: n, CLen: len(b) - off, DLen: -1})
+				p.Frames = append(p.Frames, Frame{Prefix: n, CLen: len(b) - off, DLen: -1, Err: "block truncated"})
 				p.Rest = len(b) - off
 				return p
 			}
 			blk := b[off : off+n]
 			p.Items = append(p.Items, [2]int{off, off + n})
 			off += n
-			d, err := ksnappy.Decode(nil, blk)
-			if err != nil {
-				p.Frames = append(p.Frames, Frame{Prefix: n, CLen: n, DLen: -1})
-				continue
-			}
-			p.Frames = append(p.Frames, Frame{Prefix: n, CLen: n, DLen: len(d)})
+			f, d := decodeBlock(blk, n)
+			p.Frames = append(p.Frames, f)
 			p.Decoded = append(p.Decoded, d...)
 		}
 		return p
@@ -79,12 +113,8 @@ func ParseSnappy(b []byte) *Parsed {
 		return p
 	}
 	p.Items = append(p.Items, [2]int{0, len(b)})
-	d, err := ksnappy.Decode(nil, b)
-	if err != nil {
-		p.Frames = append(p.Frames, Frame{Prefix: len(b), CLen: len(b), DLen: -1})
-		return p
-	}
-	p.Frames = append(p.Frames, Frame{Prefix: len(b), CLen: len(b), DLen: len(d)})
+	f, d := decodeBlock(b, len(b))
+	p.Frames = append(p.Frames, f)
 	p.Decoded = d
 	return p
 }
